@@ -16,6 +16,7 @@ def parseRB? (s : String) : Option RB :=
   | "pass" => some .pass
   | "nil" => some .nil
   | "wait" => some .wait
+  | "wait0" => some .wait       -- `NewTokenResultShouldWait(0)`: same status, the chain never looks at the duration
   | "panic" => some .panic
   | _ =>
     let st : Option Style :=
